@@ -327,6 +327,20 @@ let writer_init_existing acc =
     (match r with
      | Exited (_, "NULL") -> if content () <> expected then fail acc ~kind:"spec_violation" ~what:"[C08] existing file modified by mtbl_writer_init" (Lazy.force case)
      | _ -> fail acc ~kind:"spec_violation" ~what:"[C08] mtbl_writer_init opened an existing path" (Lazy.force case));
+    (* the model of the open(2) call with the flags scraped from the source (model/OpenModel.v, T08f) on the same file system *)
+    let cs s = coq_string_of s 0 in
+    let bytes_of s = List.init (String.length s) (fun i -> n_of_int (Char.code s.[i])) in
+    let mfs = (match kind with
+        | "regular" -> [ (cs p, NReg (bytes_of "precious content")) ]
+        | "empty" -> [ (cs p, NReg []) ]
+        | "symlink" -> [ (cs p, NLink (cs target)); (cs target, NReg (bytes_of "target content")) ]
+        | "dangling_symlink" -> [ (cs p, NLink (cs target)) ]
+        | _ -> [ (cs p, NDir) ]) in
+    let (mres, mfs') = writer_init_path mfs (cs p) in
+    let model_null = (match mres with OpenFail -> true | OpenOk _ -> false) in
+    let real_null = (match r with Exited (_, "NULL") -> true | _ -> false) in
+    if model_null <> real_null || (real_null && (mfs' = mfs) <> (content () = expected)) then
+      fail acc ~kind:"model_mismatch" ~what:"[C08] mtbl_writer_init on an existing path differs from the model of its open(2) call (T08f)" (Lazy.force case);
     (try Unix.unlink p with _ -> ()); (try Unix.rmdir p with _ -> ()); (try Unix.unlink target with _ -> ())) kinds
 
 (* mtbl_writer_init on a path that does not exist yet, options NULL: the file appears, holds what the
